@@ -246,11 +246,13 @@ func (r *rewriter) run() {
 		}
 	}
 
-	astutil.Apply(r.file, r.pre, r.post)
-
 	if r.yield {
+		// on the original tree, before any generated code exists: a preemption
+		// point must never sit between detsim.Select and the real operation
 		r.insertYields()
 	}
+
+	astutil.Apply(r.file, r.pre, r.post)
 
 	if r.changed {
 		// keep only comments before the package clause (build constraints, doc)
@@ -743,13 +745,22 @@ func (r *rewriter) insertYields() {
 		}
 		return out
 	}
+	clauseBlocks := map[*ast.BlockStmt]bool{}
 	ast.Inspect(r.file, func(n ast.Node) bool {
 		switch x := n.(type) {
+		case *ast.SelectStmt:
+			clauseBlocks[x.Body] = true
+		case *ast.SwitchStmt:
+			clauseBlocks[x.Body] = true
+		case *ast.TypeSwitchStmt:
+			clauseBlocks[x.Body] = true
 		case *ast.BlockStmt:
-			if _, gen := r.core[x]; !gen {
+			if _, gen := r.core[x]; !gen && !clauseBlocks[x] {
 				x.List = doList(x.List)
 			}
 		case *ast.CaseClause:
+			x.Body = doList(x.Body)
+		case *ast.CommClause:
 			x.Body = doList(x.Body)
 		}
 		return true
